@@ -112,4 +112,31 @@ def applyFilters (fs : List (Bool × Re)) (path : Array Char) : Bool :=
   if path.size = 0 then true
   else foldFilters (fs.map (·.1)) (fs.map fun f => search f.2 path)
 
+/-! ### `apply_filters` as it is written: the extracted skeleton, interpreted -/
+
+/-- what the extractor reads off `apply_filters`: the early return for the root, the three arms of the default, the two
+assignments of the loop over the matched filter indices; `shape`: the function has exactly this shape and nothing else -/
+structure ApplyFiltersSkel where
+  rootIncluded : Bool
+  dInc : Bool
+  dExc : Bool
+  dNone : Bool
+  aInc : Bool
+  aExc : Bool
+  shape : Bool
+  deriving DecidableEq, Repr
+
+/-- indices of the filters that matched, ascending (what iterating a `SetMatches` yields) -/
+def idxFrom : Nat → List Bool → List Nat
+  | _, [] => []
+  | k, m :: ms => (if m then [k] else []) ++ idxFrom (k + 1) ms
+
+/-- the loop `for i in matches { match kinds[i] { Include => result = .., Exclude => result = .. } }` (`none`: index out of range) -/
+def assignLoop (aInc aExc : Bool) (kinds : List Bool) (ms : List Nat) (init : Option Bool) : Option Bool :=
+  ms.foldl (fun r i => r.bind fun _ => (kinds[i]?).map fun k => if k then aInc else aExc) init
+
+def applyFiltersSrc (k : ApplyFiltersSkel) (isRoot : Bool) (kinds : List Bool) (ms : List Nat) : Option Bool :=
+  if isRoot && k.rootIncluded then some true
+  else assignLoop k.aInc k.aExc kinds ms (some (match kinds.head? with | some true => k.dInc | some false => k.dExc | none => k.dNone))
+
 end Rj
